@@ -288,7 +288,11 @@ def r4(ctx: Ctx) -> None:
     cr = fold_sums(cr)
     crd = deref(cr, single_defs(cr))
     s_ = ("self",)
-    loops = [lp for lp in crd if lp[0] == "for" and lp[2] == ("a", s_, "rectangles")]
+    # the translation loop, on the main line or under the 'there are rectangles' test (the only other statements are assertions)
+    main = [st for st in crd if st[0] != "assert"]
+    if len(main) == 1 and main[0][0] == "if" and main[0][3] == ():
+        main = [st for st in main[0][2] if st[0] != "assert"]
+    loops = [lp for lp in main if lp[0] == "for" and lp[2] == ("a", s_, "rectangles")] if len(main) == 1 else []
     ctx.site(r.where, "recenter_rectangles: same (dx, dy) added to every rectangle centre; nothing else written")
     ok = False
     if len(loops) == 1:
